@@ -165,6 +165,68 @@ fn handover(bs: &mut crate::catalog::Base, gs: &[crate::catalog::Golden], bank: 
     }
 }
 
+/// The permission-less migration instruction on a pool that still has the pre-migration layout (every
+/// reward slot carries the reward authority; no instruction can create such an account any more, so the
+/// bytes are written into a clone of the bank): nobody signs, so no recorded authority may change.
+fn legacy_migration(bs: &mut crate::catalog::Base, bank: &Bank, acc: &mut Acc) {
+    use crate::ix::build as b;
+    for (label, pi) in [("static_pool", bs.p_a), ("adaptive_pool", bs.p_ad), ("token_2022_pool", bs.p_t)] {
+        let poolk = bs.w.pools[pi].key;
+        let mut bk = bank.clone();
+        let Some(pre) = bk.data(&poolk).and_then(codec::Pool::decode) else { continue };
+        let auth = pre.reward_infos[0].extension;
+        {
+            let Some(mut a) = bk.get(&poolk).cloned() else { continue };
+            for k in 1..3 {
+                let off = codec::POOL_OFF_REWARD_INFOS + k * codec::REWARD_INFO_LEN + 64;
+                a.data[off..off + 32].copy_from_slice(&auth);
+            }
+            bk.set(poolk, a);
+        }
+        let cfg_pre = bk.data(&pre.whirlpools_config).map(|d| d.to_vec());
+        let ix = b::MigrateRepurposeRewardAuthoritySpace { whirlpool: poolk }.ix();
+        let (o, b2) = bs.w.simulate(&bk, &ix);
+        acc.evaluations += 1;
+        acc.situation(format!("legacy_migration:{label}:{}", o.ok()));
+        if !o.ok() {
+            acc.notes.push(format!("legacy migration of the {label} failed: {:?}", o.err));
+            acc.count("legacy_migrations_failed");
+            continue;
+        }
+        acc.count("legacy_migrations_ok");
+        let post = b2.data(&poolk).and_then(codec::Pool::decode).unwrap_or_default();
+        if post.reward_infos[0].extension != auth {
+            acc.violation(
+                format!("c04:permissionless_changed_authority:migrate_repurpose_reward_authority_space:{label}"),
+                format!("the unsigned migration instruction changed the pool's reward authority from {} to {}", Pubkey::new_from_array(auth), Pubkey::new_from_array(post.reward_infos[0].extension)),
+                json!({"pool": poolk.to_string()}),
+            );
+        }
+        if b2.data(&pre.whirlpools_config).map(|d| d.to_vec()) != cfg_pre {
+            acc.violation(format!("c04:permissionless_changed_authority:config:{label}"), "the unsigned migration instruction changed the config account".to_string(), json!({}));
+        }
+        // the previous authority still rules the reward settings, a stranger does not
+        let n_init = post.reward_infos.iter().filter(|r| r.initialized()).count();
+        if n_init > 0 {
+            let old = Pubkey::new_from_array(auth);
+            let vault = post.reward_infos[0].vault;
+            let set = |k: Pubkey| b::SetRewardEmissions { whirlpool: poolk, reward_authority: k, reward_vault: vault }.ix(0, 0);
+            let (o1, _) = bs.w.simulate(&b2, &set(old));
+            let stranger = bs.w.new_key();
+            let (o2, _) = bs.w.simulate(&b2, &set(stranger));
+            acc.evaluations += 2;
+            if o2.ok() {
+                acc.violation(format!("c04:legacy_migration:stranger_sets_emissions:{label}"), "after the migration a stranger can set reward emissions".to_string(), json!({}));
+            }
+            if o1.ok() {
+                acc.count("legacy_migration_authority_still_accepted");
+            } else {
+                acc.notes.push(format!("after the legacy migration of the {label} the reward authority can no longer set emissions: {:?}", o1.err));
+            }
+        }
+    }
+}
+
 pub fn run(tier: Tier, seed: u64) -> i32 {
     let mut rep = Report::new("C04", tier, seed);
     rep.exhaustive = true;
@@ -407,6 +469,7 @@ pub fn run(tier: Tier, seed: u64) -> i32 {
             }
         }
         handover(&mut bs, &gs, &bank, &mut acc);
+        legacy_migration(&mut bs, &bank, &mut acc);
     }
     if acc.get("uncatalogued_instructions") > 0 {
         acc.count("harness_errors");
@@ -420,5 +483,6 @@ pub fn run(tier: Tier, seed: u64) -> i32 {
     rep.floor("handover_role_followed", 20);
     rep.floor("handover_other_role_rejected", 150);
     rep.floor("second_handovers_accepted", 4);
+    rep.floor("legacy_migrations_ok", 2);
     rep.finish()
 }
